@@ -73,10 +73,13 @@ ChoiceOf ==
              ai == IF hasRecv THEN ri + 1 ELSE ri
              f == OracleOf(ActsFrom(ai), NMach(Z, s))
          IN IF ~live THEN None
-            ELSE IF ln.e = "BlockingEnd"
-            THEN (IF PBlkFirst(P) /\ BlkSideAt(Z, P.bt) = s THEN Choice("blk", s, 0, NoEv, OracleOf(ActsFrom(l + 1), NMach(Z, s)))
+            ELSE IF ln.e = "BlockingEnd" /\ PBlkFirst(P)
+            THEN (IF BlkSideAt(Z, P.bt) = s /\ ~BlkDeferred(Z, s, P.bt)
+                  THEN Choice("blk", s, 0, NoEv, OracleOf(ActsFrom(l + 1), NMach(Z, s)))
                   ELSE None)
-            ELSE IF ~PQueueNext(P) THEN None
+            \* (a BlockingBegin queued for the instant its side's blocking ends goes before the expiry)
+            ELSE IF ~PQueueNext(P) /\ ~(PBlkFirst(P) /\ ln.e = "BlockingBegin" /\ BlkSideAt(Z, P.bt) = s
+                                         /\ BlkDeferred(Z, s, P.bt)) THEN None
             ELSE LET C == {c \in QueueCandsAt(Z, P.qt) : c[1] = s /\ Matches(c[2], ln)}
                  IN IF C # {}
                     THEN [Choice("queue", s, 0, (CHOOSE c \in C : TRUE)[2], f) EXCEPT
